@@ -12,6 +12,8 @@ from dateutil.relativedelta import relativedelta
 
 import finam as fm
 
+import _guard
+
 logging.disable(logging.CRITICAL)
 DAY = timedelta(days=1)
 
@@ -56,7 +58,8 @@ def composition_level(viol):
 
                 cons.update = upd
                 try:
-                    comp.run(start_time=start, end_time=start + 70 * DAY)
+                    with _guard.limit(120.0):
+                        comp.run(start_time=start, end_time=start + 70 * DAY)
                 except Exception as e:  # noqa
                     viol.append(f"run with DelayFixed({delay!r}) from {start:%Y-%m-%d}, consumer step {step} d failed: {type(e).__name__}: {str(e)[:100]}")
                     return n
